@@ -7,7 +7,7 @@ regenerated tables: `Flatland/Generated/C16Catalogues.lean`.
 Property theorems (listed in harness/props/c16.py):
   priority_partial, priority_first_defined, C16_full_fails     — lookup order of the five sources
   plural_choice, plural_missing_count, ungettext_receives_count — plural triples
-  findTransformer_eq_spec, transformer_full_fails, translator_applied, expand_plain_refines,
+  findTransformer_eq_spec, transformer_full, translator_applied, expand_plain_refines,
   expand_plural_refines                                         — translators, A ⊨ B
   expand_total, no_percent_left, expandMessage_ok_expansion     — complete expansion
   catalogue_placeholders, catalogue_complete, builtin_keys_supplied,
@@ -148,57 +148,42 @@ theorem fmLookup_eq (targets : List Target) (u : Option UTr) (k : Str) :
   unfold fmLookup trVal
   cases rawLookup targets k <;> cases u <;> rfl
 
-/-- `int(n)` succeeded: the count "is 1" exactly when the number it stands for is 1 -/
-theorem isOne_coerce (v n : Val) (h : coerceCount v = .ok n) :
-    isOne n = (countOf v == some 1) := by
+theorem isOne_int (i : Int) : isOne (.int i) = (some i == some (1 : Int)) := by
+  by_cases hi : i = 1
+  · subst hi; rfl
+  · have : isOne (.int i) = false := by
+      unfold isOne
+      split
+      · rename_i h1; cases h1; exact absurd rfl hi
+      · rename_i h1; cases h1
+      · rfl
+    rw [this]
+    symm
+    simp [hi]
+
+/-- the coerced count "is 1" exactly when the number the value stands for is 1 (a value that
+    is not a number is never 1) -/
+theorem isOne_coerce (v : Val) : isOne (coerceCount v) = (countOf v == some 1) := by
   cases v with
-  | none => cases h; rfl
-  | elem u => cases h; rfl
-  | int i =>
-    cases h
-    by_cases hi : i = 1
-    · subst hi; rfl
-    · simp only [countOf]
-      have : isOne (.int i) = false := by
-        unfold isOne
-        split
-        · rename_i h1; cases h1; exact absurd rfl hi
-        · rename_i h1; cases h1
-        · rfl
-      rw [this]
-      symm
-      simp [hi]
-  | bool b => cases h; cases b <;> rfl
+  | none => rfl
+  | elem u => rfl
+  | int i => exact isOne_int i
+  | bool b => cases b <;> rfl
   | str s =>
-    simp only [coerceCount] at h
+    simp only [coerceCount, countOf]
     cases hp : parseInt s with
-    | none => rw [hp] at h; cases h
-    | some i =>
-      rw [hp] at h
-      cases h
-      simp only [countOf, hp]
-      by_cases hi : i = 1
-      · subst hi; rfl
-      · have : isOne (.int i) = false := by
-          unfold isOne
-          split
-          · rename_i h1; cases h1; exact absurd rfl hi
-          · rename_i h1; cases h1
-          · rfl
-        rw [this]
-        symm
-        simp [hi]
+    | none => rfl
+    | some i => exact isOne_int i
 
 /-- **plural_choice**: without an `ungettext`, the singular form is used exactly when the
     resolved (translated, `int()`-coerced) count equals 1 -/
-theorem plural_choice (e : Env) (u : Option UTr) (single plural nkey : Str) (v n : Val)
+theorem plural_choice (e : Env) (u : Option UTr) (single plural nkey : Str) (v : Val)
     (hn : findTransformer e.nState e.nAnc e.nBuiltin = .ok none)
-    (hv : rawLookup e.targets nkey = some v)
-    (hc : coerceCount (trVal u v) = .ok n) :
+    (hv : rawLookup e.targets nkey = some v) :
     chooseMessage e u (.plural single plural nkey) =
       .ok (trText u (if useSingular (some (trVal u v)) then single else plural)) := by
-  have hone := isOne_coerce _ _ hc
-  simp only [chooseMessage, hn, resolveCount, fmLookup_eq, hv, hc, bind, Except.bind, pure,
+  have hone := isOne_coerce (trVal u v)
+  simp only [chooseMessage, hn, resolveCount, fmLookup_eq, hv, bind, Except.bind, pure,
     Except.pure, useSingular]
   rw [hone]
   cases u <;> (simp only [trText]; split <;> simp_all)
@@ -214,15 +199,16 @@ theorem plural_missing_count (e : Env) (u : Option UTr) (single plural nkey : St
 
 /-- with an `ungettext` the choice is delegated: it receives both forms and the coerced count -/
 theorem ungettext_receives_count (e : Env) (u : Option UTr) (g : NTr)
-    (single plural nkey : Str) (v n : Val)
+    (single plural nkey : Str) (v : Val)
     (hn : findTransformer e.nState e.nAnc e.nBuiltin = .ok (some g))
-    (hv : rawLookup e.targets nkey = some v)
-    (hc : coerceCount (trVal u v) = .ok n) :
-    chooseMessage e u (.plural single plural nkey) = g single plural n := by
-  simp only [chooseMessage, hn, resolveCount, fmLookup_eq, hv, hc, bind, Except.bind, pure,
+    (hv : rawLookup e.targets nkey = some v) :
+    chooseMessage e u (.plural single plural nkey) = g single plural (coerceCount (trVal u v)) := by
+  simp only [chooseMessage, hn, resolveCount, fmLookup_eq, hv, bind, Except.bind, pure,
     Except.pure]
 
-example : (coerceCount (.str " 1 ".toList)).toOption = some (.int 1) := by decide
+example : coerceCount (.str " 1 ".toList) = .int 1 := by decide
+example : coerceCount (.str "abc".toList) = .str "abc".toList ∧
+    useSingular (some (.str "abc".toList)) = false := by decide
 example : useSingular (some (.str "01".toList)) = true := by decide
 example : useSingular (some (.bool true)) = true ∧ useSingular (some (.int 2)) = false := by decide
 
@@ -246,10 +232,11 @@ theorem searchAncestry_eq {α} (anc : List (AncSlots α)) :
     | none => simpa using ih
     | some f => rfl
 
-/-- **translator search**: unless `state[type]` raises TypeError, `find_transformer` returns
-    the documented choice — state attribute, state item, element, nearest ancestor, builtins -/
+/-- **translator search**: `find_transformer` returns the documented choice — state attribute,
+    state item, element, nearest ancestor, builtins — for every kind of state (a state whose
+    `[type]` raises TypeError/IndexError simply has no such item, since 3d5403b) -/
 theorem findTransformer_eq_spec {α} (st : StateSlots α) (anc : List (AncSlots α))
-    (b : Slot α) (h : ∀ (_ : st.attr = .absent), st.item ≠ .typeError) :
+    (b : Slot α) :
     findTransformer st anc b =
       .ok (Spec.transformer (slotOpt st.attr) (itemOpt st.item) (anc.map AncSlots.resolved)
         (slotOpt b)) := by
@@ -259,8 +246,10 @@ theorem findTransformer_eq_spec {α} (st : StateSlots α) (anc : List (AncSlots 
   | present v => rfl
   | absent =>
     cases hitem : st.item with
-    | typeError => exact absurd hitem (h hattr)
     | found v => rfl
+    | typeError =>
+      simp only [slotOpt, itemOpt]
+      cases (anc.map AncSlots.resolved).findSome? id <;> cases b <;> rfl
     | keyError =>
       simp only [slotOpt, itemOpt]
       cases (anc.map AncSlots.resolved).findSome? id <;> cases b <;> rfl
@@ -273,12 +262,11 @@ def C16_Transformer_Full : Prop :=
   ∀ (st : StateSlots UTr) (anc : List (AncSlots UTr)) (b : Slot UTr),
     ∃ t, findTransformer st anc b = .ok t
 
-/-- D-C16-1: a list / tuple / str state makes `state['ugettext']` raise TypeError, which
-    `find_transformer` does not catch -/
-theorem transformer_full_fails : ¬ C16_Transformer_Full := by
-  intro h
-  obtain ⟨t, ht⟩ := h ⟨.absent, .typeError⟩ [] .absent
-  simp [findTransformer] at ht
+/-- it holds now (D-C16-1 is fixed): in particular for a list / tuple / str state -/
+theorem transformer_full : C16_Transformer_Full :=
+  fun st anc b => ⟨_, findTransformer_eq_spec st anc b⟩
+
+example : findTransformer (α := UTr) ⟨.absent, .typeError⟩ [] .absent = .ok none := rfl
 
 /-- the nearest ancestor wins; an instance attribute (even `None`) shadows the class's -/
 example :
@@ -403,14 +391,13 @@ theorem expand_plain_refines (e : Env) (kw : List (Str × Val)) (state : Option 
   simp only [hu, bind, Except.bind, chooseMessage]
   exact key
 
-/-- **A ⊨ B for plural triples** (no `ungettext`, count is a number or absent) -/
+/-- **A ⊨ B for plural triples** (no `ungettext`; any count, number or not) -/
 theorem expand_plural_refines (e : Env) (kw : List (Str × Val)) (state : Option Target)
     (validator element : Target) (u : Option UTr) (single plural nkey s : Str)
     (ht : e.targets = targetsOf kw state validator element)
     (hv : ∀ k, validator.item k = none) (he : ∀ k, element.item k = none)
     (hu : findTransformer e.uState e.uAnc e.uBuiltin = .ok u)
-    (hn : findTransformer e.nState e.nAnc e.nBuiltin = .ok none)
-    (hc : ∀ v, rawLookup e.targets nkey = some v → ∃ n, coerceCount (trVal u v) = .ok n) :
+    (hn : findTransformer e.nState e.nAnc e.nBuiltin = .ok none) :
     expandMessage e (.plural single plural nkey) = .ok s ↔
       Spec.expandPlural u (sourcesOf kw state validator element) single plural nkey = some s := by
   have hl : ∀ k, rawLookup e.targets k =
@@ -432,8 +419,7 @@ theorem expand_plural_refines (e : Env) (kw : List (Str × Val)) (state : Option
     unfold trText at keyP ⊢
     exact keyP
   | some v =>
-    obtain ⟨n, hn'⟩ := hc v hlk
-    rw [plural_choice e u single plural nkey v n hn hlk hn']
+    rw [plural_choice e u single plural nkey v hn hlk]
     have hs : Spec.lookup (sourcesOf kw state validator element) nkey = some v := by
       rw [← hl]; exact hlk
     simp only [hs, Option.map]
